@@ -20,7 +20,9 @@ META = {
     "note": "Values are distinct short strings; literal duplicate keywords are C01's (F12); async environments are C09's; "
     "autoescape off.  Route 'template' renders a call template compiled once per worker with the macro passed in as a "
     "variable (the imported-macro situation); route 'inline' compiles definition and call in one template in a fresh "
-    "Environment and is run for all calls without *seq/**map plus all calls of <= 1-parameter signatures.",
+    "Environment per case and is run on the diagonal sub-family (signature index + call index) % K == 0 (K=151 quick, 61 "
+    "thorough; every pair for signatures with <= 1 parameter).  quick additionally limits positional arguments to 4, "
+    "*seq to {2 after, 1 before the keywords}, drops the empty **{} and lets a default name only the preceding parameter.",
     "design_ref": "DESIGN.md §4 C06, §3 R-bind",
 }
 
@@ -158,7 +160,10 @@ def shard(arg) -> core.Part:
                         flags = _flags(call)
                     e = want[1] if want[0] == "exc" else "ok"
                     g = got[1] if got[0] == "exc" else ("ok" if want[0] == "exc" else "wrong-output")
-                    p.violation(f"C06/{route}/{fam}/exp-{e}-got-{g}/{flags}", {
+                    vsig = f"C06/{route}/{fam}/exp-{e}-got-{g}/{flags}"
+                    if flags == "mapdup+pykw" and route != "python" and want[0] == "exc" and got[0] == "ok":
+                        vsig = "C06/pykeyword-kwarg/dyn-kwargs-override"
+                    p.violation(vsig, {
                         "msg": f"macro m({G.sig_source(sig[0])}) body uses {sorted(sig[1])}; call {csrc!r} [{route}]: "
                                f"got {got!r}, expected {want!r}",
                         "macro": G.macro_source(sig), "call": csrc, "route": route,
@@ -213,8 +218,8 @@ def run(ctx: core.Ctx):
         "route 'template' shares one Environment and compiled call templates inside a worker; routes 'python'/'inline' use a fresh Environment per signature / per case",
     ]
     ctx.pmap(shard, shards)
-    ctx.cov["bounds"] = {"max_parameters": nmax, "max_defaults": 3, "max_positional": 5, "max_keywords": 4,
-                         "star_seq_lengths": [0, 1, 2], "families": list(FAMILIES),
+    ctx.cov["bounds"] = {"max_parameters": nmax, "max_defaults": 3, "max_positional": 4 if ctx.quick else 5, "max_keywords": 4,
+                         "quick_reductions": bool(ctx.quick), "families": list(FAMILIES),
                          "call_forms": ["expr", "call0", "callx", "kwcb"]}
     ctx.cov["signatures"] = ctx.counters.get("signatures", 0)
     ctx.cov["signature_x_call"] = ctx.counters.get("calls", 0)
